@@ -6,7 +6,7 @@ From Verif Require Import Base Flow.
 Local Open Scope nat_scope.
 
 Inductive case :=
-  | Case (eng : bool) (rules : list fl_rule) (req : list bool)
+  | Case (eng : fl_mode) (rules : list fl_rule) (req : list bool)
          (evaluated matched : list (list nat))      (* one list per phase 1..5 *)
          (intr dintr : option (nat * nat)).          (* (phase, rule id) *)
 
